@@ -40,6 +40,9 @@ enum Api
     PLAN_R = 12,
     IRFFT_HALF = 13,
     IRFFT_ODD = 14,
+    RFFT_PAD1 = 15,
+    RFFT_PAD5 = 16,
+    FFT_PAD5 = 4,
     XCORR = 20,
     HILBERT = 21,
     FFTFILT = 22,
@@ -60,6 +63,9 @@ static const char* api_name(int a) {
     case HILBERT: return "hilbert";
     case FFTFILT: return "FftFilter";
     case IRFFT_ODD: return "irfft_odd";
+    case RFFT_PAD1: return "rfft_pad1";
+    case RFFT_PAD5: return "rfft_pad5";
+    case FFT_PAD5: return "fft_pad5";
     case CZT: return "czt";
     }
     return "?";
@@ -117,6 +123,10 @@ static std::vector<double> do_request(int api, int n) {
     case PLAN_C: { FftPlan p(n); return flat(p(cinput(n))); }
     case FFT_PAD: return flat(fft(cinput(n > 2 ? n - 2 : n), n));
     case RFFT: return flat(rfft(rinput(n)));
+    // zero padding to the same n from inputs of different lengths (the longer one first leaves more behind, if anything is kept)
+    case RFFT_PAD1: return flat(fft(rinput(std::max(1, n - 1)), n));
+    case RFFT_PAD5: return flat(rfft(rinput(std::max(1, n - 5)), n));
+    case FFT_PAD5: return flat(fft(cinput(std::max(1, n - 5)), n));
     case IRFFT: return (n % 2 == 0) ? flat(irfft(hsym(n), n)) : flat(fft(rinput(n)));
     case IRFFT_HALF: {
         if (n % 2) { return flat(fft(rinput(n))); }
@@ -266,11 +276,11 @@ int main(int argc, char** argv) {
                         const int n = alpha[c % A];
                         int api;
                         if (family[0] == 'C') {
-                            const int v = (int)((seqno + i) % 4);
-                            api = v == 0 ? FFT_C : v == 1 ? IFFT : v == 2 ? PLAN_C : FFT_PAD;
+                            const int v = (int)((seqno + i) % 5);
+                            api = v == 0 ? FFT_C : v == 1 ? IFFT : v == 2 ? PLAN_C : v == 3 ? FFT_PAD : FFT_PAD5;
                         } else if (family == "R") {
-                            const int v = (int)((seqno + i) % 4);
-                            api = v == 0 ? RFFT : v == 1 ? IRFFT : v == 2 ? PLAN_R : IRFFT_HALF;
+                            const int v = (int)((seqno + i) % 6);
+                            api = v == 0 ? RFFT : v == 1 ? IRFFT : v == 2 ? PLAN_R : v == 3 ? IRFFT_HALF : v == 4 ? RFFT_PAD1 : RFFT_PAD5;
                         } else {
                             const int v = (int)((seqno / 3 + i) % 3);   // full spectrum, half spectrum, and a rejected odd length in between
                             api = v == 0 ? IRFFT : v == 1 ? IRFFT_HALF : IRFFT_ODD;
@@ -287,7 +297,7 @@ int main(int argc, char** argv) {
                       47, 48, 49, 53, 60, 63, 64, 86, 94, 100, 106, 127, 128, 129, 210}) {
             lens.push_back(n);
         }
-        const std::vector<int> apis = {FFT_C, IFFT, PLAN_C, FFT_PAD, RFFT, IRFFT, PLAN_R, IRFFT_HALF, XCORR, HILBERT,
+        const std::vector<int> apis = {FFT_C, IFFT, PLAN_C, FFT_PAD, FFT_PAD5, RFFT, RFFT_PAD1, RFFT_PAD5, IRFFT, PLAN_R, IRFFT_HALF, IRFFT_ODD, XCORR, HILBERT,
                                        FFTFILT, CZT};
         long done = 0;
         while (done < budget) {
